@@ -931,6 +931,11 @@ pub struct GenCfg {
     pub only_fams: Vec<String>,
     /// upper bound on threads per scenario (0 = default distribution)
     pub max_threads: usize,
+    /// > 0: "wide" scenarios - this many live threads, each calling one operation of one family once
+    /// (same call, different arguments), two arbitrary preemption points each in the instrumented build.
+    /// State a tree keys by a hash or a slot derived from the calling thread's identity is shared by
+    /// some pair of these threads once there are more threads than slots.
+    pub wide: usize,
     pub focus: String,
     pub max_window: usize,
     pub min_window: usize,
@@ -1012,7 +1017,7 @@ const FAMS: &[Fam] = &[
         },
     },
     Fam { name: "encode", cost: 200, gen: |r, _| if r.chance(1, 3) { gop("compress", &[r.below(6)], r) } else { gop("decode", &[r.below(20), r.below(2)], r) } },
-    Fam { name: "serdes", cost: 400, gen: |r, _| match r.below(4) { 0 => Op::new("fr_serdes", &[r.below(8), r.below(3)]), 1 => Op::new("fq12_serdes", &[r.below(6), r.below(3)]), _ => gop("serdes", &[r.below(6), r.below(2), r.below(2), r.below(3)], r) } },
+    Fam { name: "serdes", cost: 400, gen: |r, _| match r.below(4) { 0 => Op::new("fr_serdes", &[r.below(8), r.below(5)]), 1 => Op::new("fq12_serdes", &[r.below(6), r.below(5)]), _ => gop("serdes", &[r.below(6), r.below(2), r.below(2), r.below(5)], r) } },
     Fam { name: "h2c", cost: 1200, gen: |r, _| gop(if r.chance(1, 2) { "h2c" } else { "e2c" }, &[r.below(4), r.below(6), r.below(6), r.below(2)], r) },
     Fam { name: "insub", cost: 400, gen: |r, _| gop("insub", &[r.below(8)], r) },
     Fam { name: "prepare", cost: 300, gen: |r, _| gop("prepare", &[r.below(6)], r) },
@@ -1032,6 +1037,70 @@ const FAMS: &[Fam] = &[
 ];
 
 const WNAF_FAMS: &[&str] = &["mul", "wnaf_bs", "wnaf_sb", "wnaf_multi", "wnaf_half", "wnaf_view", "wnaf_raw", "rec", "pre3", "pre256"];
+
+fn wide_fams(cfg: &GenCfg) -> Vec<&'static Fam> {
+    let mut fams: Vec<&Fam> = if cfg.focus == "wnaf" { FAMS.iter().filter(|f| WNAF_FAMS.contains(&f.name)).collect() } else { FAMS.iter().collect() };
+    if !cfg.only_fams.is_empty() {
+        fams.retain(|f| cfg.only_fams.iter().any(|n| n == f.name));
+    }
+    fams
+}
+
+/// the operation kinds the allowed families generate (sorted; found by sampling the generators)
+pub fn wide_kinds(cfg: &GenCfg) -> Vec<(String, usize)> {
+    let fams = wide_fams(cfg);
+    let mut out: Vec<(String, usize)> = vec![];
+    let mut r = Rng::new(0x77696465);
+    for (fi, f) in fams.iter().enumerate() {
+        for _ in 0..200 {
+            let k = (f.gen)(&mut r, cfg).k;
+            if !out.iter().any(|(n, _)| *n == k) {
+                out.push((k, fi));
+            }
+        }
+    }
+    out.sort();
+    out
+}
+
+/// "Wide" scenario number `idx`: `cfg.wide` live threads, each calling the `idx`-th operation kind of
+/// the allowed families once, with different arguments, under a random schedule; in the instrumented
+/// build every thread is also preempted at two arbitrary function entries inside its call.
+pub fn gen_wide(seed: u64, idx: usize, cfg: &GenCfg) -> SchedPlan {
+    let mut r = Rng::new(seed);
+    let fams = wide_fams(cfg);
+    let kinds = wide_kinds(cfg);
+    let (kind, fi) = kinds[idx % kinds.len()].clone();
+    let f = fams[fi];
+    let mut threads = vec![];
+    for _ in 0..cfg.wide {
+        let mut v = (f.gen)(&mut r, cfg);
+        for _ in 0..400 {
+            if v.k == kind {
+                break;
+            }
+            v = (f.gen)(&mut r, cfg);
+        }
+        let mut tp = ThreadPlan { ops: vec![v], ..Default::default() };
+        for _ in 0..2 {
+            let e = 6 + r.below(12);
+            tp.preempt_at.push((1u64 << e) + r.next() % (1u64 << e));
+        }
+        threads.push(tp);
+    }
+    let mut views_b = vec![];
+    let mut views_s = vec![];
+    for gi in 0..2 {
+        for _ in 0..cfg.nviews_b[gi] {
+            views_b.push(((gi + 1) as u8, r.below(6), r.below(12)));
+        }
+        for _ in 0..cfg.nviews_s[gi] {
+            views_s.push(((gi + 1) as u8, rk(&mut r)));
+        }
+    }
+    let schedule = if r.chance(3, 4) { Schedule::Random(r.next()) } else { Schedule::RoundRobin(1) };
+    SchedPlan { focus: cfg.focus.clone(), threads, views_b, views_s, nshared_ctx: cfg.nshared, yield_mask: tok::Y_ALL, schedule }
+}
 
 /// One seeded scenario (swarm style: thread count, op mix, fault kinds, seams, scheduler vary per run)
 pub fn gen_plan(seed: u64, cfg: &GenCfg) -> SchedPlan {
